@@ -210,8 +210,11 @@ class RoundTrip(Scenario):
         state = {v: ctx.real(f"s_{v}") for v in names}
         extra = {v: ctx.real(f"s_{v}") for v in d_new.variables if v not in state}
         T = ctx.real("T")
-        ao = m.get_args(dict(state), T)
-        do = dict(zip(names, m(T, [state[v] for v in names])))
+        try:
+            ao = m.get_args(dict(state), T)
+            do = dict(zip(names, m(T, [state[v] for v in names])))
+        except (ValueError, ZeroDivisionError):
+            return  # outside the domain of the original model's rate laws
         with ctx.impl("re-imported model evaluates"):
             st_new = {**state, **extra}
             an = new.get_args(dict(st_new), T)
